@@ -47,8 +47,11 @@ func (v *FV) assertAxioms(only []string) {
 			}
 			v.trusted["lemma "+ax.Name+" (proved as its own obligation, used here as a hypothesis)"] = true
 		}
-		if (ax.Arith == "math") != (v.mode == ModeMath) {
+		if ax.Arith != "any" && (ax.Arith == "math") != (v.mode == ModeMath) {
 			continue
+		}
+		if strings.Contains(ax.File, "/zz_verif_spec.go") && v.pkgOf(ax.Pkg) == nil {
+			continue // axiom of a package that is not part of this property's program
 		}
 		if only != nil {
 			found := false
@@ -366,7 +369,9 @@ func (e *Engine) VerifyLemma(ax *Axiom) *FV {
 		uses = nil
 	}
 	v.assertAxioms(uses)
-	env := &ExprEnv{v: v, vars: map[string]TV{}, pkg: v.pkgOf(ax.Pkg), what: "lemma " + ax.Name}
+	// an arbitrary heap, so that (loop-free) Go functions can be used in the statement
+	env := &ExprEnv{v: v, vars: map[string]TV{}, pkg: v.pkgOf(ax.Pkg), what: "lemma " + ax.Name,
+		snap: &Snapshot{ep: v.newEpoch(0), over: map[string]Term{}}}
 	t, err := env.EvalBool(ax.Text)
 	if err != nil {
 		v.specError(Clause{File: ax.File, Line: ax.Line, Text: ax.Text}, err)
